@@ -64,7 +64,15 @@ def models(tier):
     same += [("ans", 0), ("ans", 1), ("ans2", 0)]
     m5 = monitors.ScenarioModel("one-peer-several-connections", BASE, same, [monitors.AnswerMonitor], max_socks=3,
                                 prelude=[("accept",), ("m", 0, "cer_p0"), ("accept",), ("m", 1, "cer_p0")])
-    out = [m1, mcut, m1r, m1n, m1w, m2, m3, m4, m5]
+    # long silences between answers of one kind (per-peer bookkeeping about sent answers ages out after 1000 s; it must not cost or
+    # double an answer when that kind of answer is sent again), watchdogs keeping the connection alive meanwhile
+    ls = copy.deepcopy(BASE)
+    ls["node"].update({"idle_timeout": 100_000, "wakeup": 50})
+    ls["apps"][0]["behaviour"] = "answer"
+    m6 = monitors.ScenarioModel("long-silences", ls, [("m", 0, n) for n in ("req_unkapp", "req", "req_missing", "dwr")] + [("tick", 1001), ("tick", 600)],
+                                [monitors.AnswerMonitor], max_socks=1, prelude=[("accept",), ("m", 0, "cer_p0"), ("m", 0, "req_unkapp"), ("m", 0, "req")])
+    m6.key_time = True
+    out = [m1, mcut, m1r, m1n, m1w, m2, m3, m4, m5, m6]
     # a second deterministic scheduling policy (the I/O thread runs only when nothing else can): thorough tier
     if tier == "thorough":
         out = monitors.with_io_last(out)
